@@ -27,7 +27,7 @@ def run(ctx):
         body = nt.random_track(r, ng, res=192, phrases=r.choice([1, 2, 3, 6, 12, 40]), events=r.choice([0, 2]),
                                max_tick_gap=30, unit_gap_p=0.4, big=(r.random() < 0.1))
         cases.append({"id": f"C05-s{k}", "res": 192, "body": body})
-    _notes._judge(ctx, cases, "C05", "seeded tracks with many phrases")
+    _notes._judge(ctx, cases, "C05", "seeded tracks with many phrases", max_skip_ratio=0.01)
     # bonus: the cursor invariant and the correctness of the emitted membership are INDUCTIVE (Apalache; unbounded ticks,
     # lengths and number of notes, up to 4 phrases).  Recorded in the evidence; nothing depends on it.
     if ctx.tier == "thorough":
